@@ -573,11 +573,15 @@ Proof.
 Qed.
 
 (** ** nested block scanners: whatever the nested [stmt] does, the outer scanner only advances *)
-Lemma init_total s0 inp s : init s0 inp = Ok s -> 0 <= total s.
+Lemma setDelim_ok s d s' : setDelim s d = Ok s' -> d <> [] /\ s' = set_delim s (unescape_delim d).
+Proof. unfold setDelim. destruct d; [discriminate|]. intros H; inversion H. split; [discriminate|reflexivity]. Qed.
+Lemma init_total s0 inp s : init s0 inp = Ok s -> 0 <= total s /\ pos s = 0 /\ delim s <> [].
 Proof.
-  unfold init. destruct (directive_delimiter inp); [|intros H; inversion H; simpl; lia].
-  intros H. inv_bind H. destruct (index_of inp NL); [|unfold fail in H; inv_bind H; discriminate].
-  inversion H; subst. simpl. unfold zlen. rewrite skipn_length. lia.
+  unfold init. destruct (directive_delimiter inp); [|intros H; inversion H; simpl; repeat split; [lia|discriminate]].
+  intros H. inv_bind H. apply setDelim_ok in Ha as [Hd ->].
+  destruct (index_of inp NL); [|unfold fail in H; inv_bind H; discriminate].
+  inversion H; subst. simpl. unfold zlen. rewrite skipn_length. repeat split; [lia|].
+  apply unescape_delim_nonnil. exact Hd.
 Qed.
 
 Lemma word_ci_len w s n r : word_ci w s = Some (n, r) -> n = length w.
@@ -600,34 +604,35 @@ Qed.
 Section IterProofs.
 Variable o : opts.
 Variable nested : scanner -> res (scanner * option Stmt).
-Hypothesis nested_mono : forall b b' r, nested b = Ok (b', r) -> total b <= total b'.
+Hypothesis nested_mono : forall b b' r, pos b = 0 -> delim b <> [] -> nested b = Ok (b', r) ->
+  total b <= total b' /\ pos b' = 0 /\ delim b' <> [].
 
 Lemma nfail_ok s p k r : nfail s p k = Ok r -> fst r = s.
 Proof. unfold nfail. intros H. inv_bind H. inversion H. reflexivity. Qed.
 
-Lemma atomic_loop_adv f : forall s body r, 0 <= total body ->
+Lemma atomic_loop_adv f : forall s body r, 0 <= total body -> pos body = 0 -> delim body <> [] ->
   atomic_loop nested f s body = Ok r -> adv s (fst r).
 Proof.
-  induction f as [|f IH]; intros s body r Hb H; simpl in H; [discriminate|].
+  induction f as [|f IH]; intros s body r Hb Hp Hd H; simpl in H; [discriminate|].
   destruct (nested body) as [[body' [st|]]|e| |] eqn:En; try discriminate.
-  - pose proof (nested_mono _ _ _ En). destruct (re_end (Text st)).
+  - destruct (nested_mono _ _ _ Hp Hd En) as (M1 & M2 & M3). destruct (re_end (Text st)).
     + inversion H; subst; simpl. apply adv_addPos. lia.
-    + eapply IH; [|exact H]. lia.
+    + eapply IH; [| | |exact H]; auto. lia.
   - apply nfail_ok in H. rewrite H. apply adv_refl.
   - apply nfail_ok in H. rewrite H. apply adv_refl.
 Qed.
-Lemma begin_loop_adv f : forall s group r, 0 <= total group ->
+Lemma begin_loop_adv f : forall s group r, 0 <= total group -> pos group = 0 -> delim group <> [] ->
   begin_loop o nested f s group = Ok r -> adv s (fst r).
 Proof.
-  induction f as [|f IH]; intros s group r Hb H; simpl in H; [discriminate|].
+  induction f as [|f IH]; intros s group r Hb Hp Hd H; simpl in H; [discriminate|].
   destruct (nested group) as [[group' [st|]]|e| |] eqn:En; try discriminate.
-  - pose proof (nested_mono _ _ _ En). destruct (re_end (Text st)).
+  - destruct (nested_mono _ _ _ Hp Hd En) as (M1 & M2 & M3). destruct (re_end (Text st)).
     + destruct (_ || _).
       * inversion H; subst; simpl. apply adv_addPos. lia.
-      * eapply IH; [|exact H]. lia.
+      * eapply IH; [| | |exact H]; auto. lia.
     + destruct (_ && _).
       * inversion H; subst; simpl. apply adv_addPos. lia.
-      * eapply IH; [|exact H]. lia.
+      * eapply IH; [| | |exact H]; auto. lia.
   - apply nfail_ok in H. rewrite H. apply adv_refl.
   - apply nfail_ok in H. rewrite H. apply adv_refl.
 Qed.
@@ -639,7 +644,7 @@ Proof.
   apply re_begin_word_pos in E. inv_bind H.
   assert (adv s (addPos s (Z.of_nat n - 1))) as A1 by (apply adv_addPos; lia).
   destruct (init (new_scanner false) a0) as [body|e| |] eqn:Ei; try discriminate.
-  - eapply adv_trans; [exact A1|]. eapply atomic_loop_adv; [|exact H]. eapply init_total; exact Ei.
+  - destruct (init_total _ _ _ Ei) as (T1 & T2 & T3). eapply adv_trans; [exact A1|]. eapply atomic_loop_adv; [| | |exact H]; auto.
   - inversion H; subst; exact A1.
 Qed.
 Lemma skipBegin_adv f s r : skipBegin o nested f s = Ok r -> adv s (fst r).
@@ -649,7 +654,7 @@ Proof.
   apply re_begin_pos in E. inv_bind H.
   assert (adv s (addPos s (Z.of_nat n - 1))) as A1 by (apply adv_addPos; lia).
   destruct (init (new_scanner (BeginEndTerminator o)) a0) as [body|e| |] eqn:Ei; try discriminate.
-  - eapply adv_trans; [exact A1|]. eapply begin_loop_adv; [|exact H]. eapply init_total; exact Ei.
+  - destruct (init_total _ _ _ Ei) as (T1 & T2 & T3). eapply adv_trans; [exact A1|]. eapply begin_loop_adv; [| | |exact H]; auto.
   - inversion H; subst; exact A1.
 Qed.
 
@@ -667,3 +672,200 @@ Proof.
     apply slice_to_ok in Ha0 as [_ ->]. reflexivity.
 Qed.
 End IterProofs.
+
+Lemma one_byte (l : bytes) a t0 : skipn 0 l = a :: t0 -> l = [a] ++ skipn 1 l.
+Proof. destruct l as [|x l']; cbv [skipn]; intros H; inversion H; reflexivity. Qed.
+Lemma two_bytes (l : bytes) a b t0 t1 :
+  skipn 0 l = a :: t0 -> skipn 1 l = b :: t1 -> l = [a; b] ++ skipn 2 l.
+Proof.
+  destruct l as [|x [|y l']]; cbv [skipn]; intros H1 H2; inversion H1; inversion H2; reflexivity.
+Qed.
+
+(** * One iteration of [stmt]'s loop *)
+Section IterSpec.
+Variable o : opts.
+Variable nested : scanner -> res (scanner * option Stmt).
+Hypothesis nested_mono : forall b b' r, pos b = 0 -> delim b <> [] -> nested b = Ok (b', r) ->
+  total b <= total b' /\ pos b' = 0 /\ delim b' <> [].
+Hypothesis noGo : GoCommand o = false.
+Hypothesis noTry : MatchBeginTryCatch o = false.
+
+(** a leading gap segment was cut off the input (continuation-passing form: any gap that
+    follows extends to a gap from the old state). *)
+Definition Strip (s0 s1 : scanner) : Prop :=
+  starts_space (input s1) = false /\ delim s1 <> [] /\ pos s1 = 0 /\
+  total s1 + zlen (input s1) = total s0 - pos s0 + zlen (input s0) /\
+  (forall g tl d', input s1 = g ++ tl -> Gap o (delim s1) g d' ->
+     exists g0, input s0 = g0 ++ tl /\ Gap o (delim s0) g0 d').
+
+Lemma skipSpaces_adv s : starts_space (input s) = false -> adv s (skipSpaces s).
+Proof.
+  intros H. unfold adv, skipSpaces. simpl. rewrite (trim_left_id _ H). repeat split; lia.
+Qed.
+
+Lemma comment_strip s0 s left right s1 :
+  comment s left right = Ok s1 -> adv s0 s -> 0 <= pos s0 -> delim s0 <> [] ->
+  (pos s = zlen left -> pos s0 = 0 /\ input s0 = left ++ skipn (length left) (input s0)) ->
+  ((left = [45%N; 45%N] /\ right = NL) \/ (left = [47%N; 42%N] /\ right = [42%N; 47%N])
+     \/ (HashComments o = true /\ left = [35%N] /\ right = NL)) ->
+  adv s0 s1 \/ Strip s0 s1.
+Proof.
+  intros H A Hp Hd Hleft Hk. destruct A as (I1 & I2 & I3 & I4).
+  apply comment_cases in H; [|lia]. destruct H as [H|(Hpos & body & sp & H1 & H2 & H3 & H4 & H5 & H6 & H7)].
+  - left. eapply adv_trans; [|exact H]. repeat split; auto.
+  - right. destruct (Hleft Hpos) as [Hp0 Hin]. rewrite Hpos, to_nat_zlen, I1 in H1.
+    assert (input s0 = (left ++ body ++ right) ++ sp ++ input s1) as Hdec.
+    { rewrite Hin, H1, <- !app_assoc. reflexivity. }
+    repeat split; auto.
+    + congruence.
+    + rewrite Hdec, !zlen_app. lia.
+    + intros g tl d' Hg HG. exists ((left ++ body ++ right) ++ sp ++ g). split.
+      * rewrite Hdec, Hg, <- !app_assoc. reflexivity.
+      * apply Gap_comment; [exists left, right, body; auto|]. apply Gap_space; [exact H3|].
+        rewrite <- I2, <- H6. exact HG.
+Qed.
+
+Lemma delim_strip f s0 s s1 hd :
+  delimCmd o f (addPos s (zlen S_DELIMITER - 1)) = Ok s1 -> adv s0 s -> pos s0 = 0 -> pos s = 1 ->
+  delim s0 <> [] -> starts_space (input s0) = false ->
+  slice_to (input s) (zlen S_DELIMITER) = Ok hd -> has_prefix_ci hd W_DELIMITER = true -> length hd = 9%nat ->
+  adv s0 (skipSpaces s1) \/ Strip s0 (skipSpaces s1).
+Proof.
+  intros H A Hp0 Hp1 Hd Hns Hhd Hci Hlen. destruct A as (I1 & I2 & I3 & I4).
+  change (zlen S_DELIMITER - 1) with 8 in H. change (zlen S_DELIMITER) with 9 in Hhd.
+  apply delimCmd_cases in H; [|simpl; lia].
+  destruct H as [H|(arg & nl & d0 & H1 & H2 & H3 & H4 & H5 & H6 & H7 & H8 & H9)].
+  - left. assert (adv s0 s1) as A1.
+    { eapply adv_trans; [|exact H]. unfold adv; simpl. repeat split; auto; lia. }
+    eapply adv_trans; [exact A1|]. apply skipSpaces_adv. destruct A1 as (E & _). rewrite E. exact Hns.
+  - right. simpl in H1, H9. rewrite I1 in *.
+    apply slice_to_ok in Hhd as [_ Hhd]. change (Z.to_nat 9) with 9%nat in Hhd.
+    assert (input s0 = hd ++ arg ++ nl ++ input s1) as Hdec.
+    { rewrite <- H1, Hhd. symmetry; apply firstn_skipn. }
+    destruct (trim_left_decomp (input s1)) as (sp & Hsp & Hsp2 & Hsp3).
+    assert (zlen hd = 9) as Hzhd by (unfold zlen; lia).
+    unfold Strip, skipSpaces; simpl. repeat split; auto.
+    + rewrite H7. apply unescape_delim_nonnil. exact H6.
+    + rewrite Hdec, !zlen_app. lia.
+    + intros g tl d' Hg HG. exists (hd ++ arg ++ nl ++ sp ++ g). split.
+      * rewrite Hdec. rewrite Hsp at 1. rewrite Hg, <- !app_assoc. reflexivity.
+      * eapply Gap_delim; eauto.
+        -- destruct H4 as [H4|[H4 H4']]; [left; exact H4|right; split; [exact H4|]].
+           rewrite H4' in Hsp, Hg. simpl in Hsp, Hg. symmetry in Hsp. apply app_eq_nil in Hsp as [-> _].
+           symmetry in Hg. apply app_eq_nil in Hg as [-> _]. reflexivity.
+        -- apply Gap_space; [exact Hsp2|]. rewrite <- H7. exact HG.
+Qed.
+
+Lemma fail_not_ok {A} s p k (x : A) : fail s p k = Ok x -> False.
+Proof. unfold fail. intros H. inv_bind H. discriminate. Qed.
+
+Lemma stmt_iter_spec f s0 depth opos step :
+  stmt_iter o nested f s0 depth opos = Ok step ->
+  starts_space (input s0) = false -> delim s0 <> [] ->
+  match step with
+  | Continue s1 _ _ => adv s0 s1 \/ Strip s0 s1
+  | Break s1 text => adv s0 s1 /\ 0 < pos s1 /\
+      (text = firstn (Z.to_nat (pos s1)) (input s1) \/ (text = input s1 /\ zlen (input s1) <= pos s1))
+  | RetEOF s1 => adv s0 s1 /\ zlen (input s1) <= pos s1 <= 0
+  end.
+Proof.
+  unfold stmt_iter. intros H Hns Hd. inv_bind H. destruct a as [r s]. pose proof (next_adv _ _ _ Ha) as A0.
+  destruct r as [c|].
+  2:{ apply next_none in Ha as [-> Hlen].
+      destruct (0 <? depth); [apply fail_not_ok in H; contradiction|].
+      destruct (0 <? pos s0) eqn:E; bnorm; inversion H; subst.
+      - split; [apply adv_refl|split; [lia|right; auto]].
+      - split; [apply adv_refl|lia]. }
+  apply next_some in Ha as (rest & w & H1 & H2 & H3 & Hs & H4).
+  destruct (decode_rune_spec _ _ _ H3 H2) as (Hw & Hascii & _).
+  assert (pos s = pos s0 + w) as Hps by (subst s; reflexivity).
+  assert (width s = w) as Hws by (subst s; reflexivity).
+  assert (input s = input s0) as His by (subst s; reflexivity).
+  assert (delim s = delim s0) as Hds by (subst s; reflexivity).
+  apply slice_from_ok in H1 as [_ Hrest].
+  clear Hs.
+  destruct (N.eqb c 40). { inversion H; left; exact A0. }
+  destruct (N.eqb c 41).
+  { destruct (depth =? 0); [apply fail_not_ok in H; contradiction|inversion H; left; exact A0]. }
+  destruct (N.eqb c 39 || N.eqb c 34 || N.eqb c 96).
+  { inv_bind H. inversion H; subst. left. eapply adv_trans; [exact A0|eapply skipQuote_adv; eauto]. }
+  inv_bind H. rename a into isDelimCmd. destruct isDelimCmd.
+  { inv_bind H. inversion H; subst; clear H.
+    destruct ((pos s =? 1) && (zlen S_DELIMITER <? zlen (input s))) eqn:E; [|discriminate]. bnorm.
+    inv_bind Ha. injection Ha as Ha. bnorm.
+    match goal with HH : (length _ =? 9)%nat = true |- _ => apply Nat.eqb_eq in HH end.
+    eapply delim_strip; eauto. lia. }
+  clear Ha. rewrite noGo in H. simpl in H.
+  inv_bind H. rename a into isDelim. destruct isDelim.
+  { inv_bind H. inversion H; subst; clear H. apply slice_to_ok in Ha0 as [Hb ->].
+    assert (1 <= zlen (delim s0)) as Hdl.
+    { destruct (delim s0) as [|x l]; [congruence|rewrite zlen_cons; pose proof (zlen_nonneg l); lia]. }
+    destruct A0 as (I1 & I2 & I3 & I4). unfold adv, addPos; simpl. rewrite Hds in *.
+    repeat split; auto; try lia. }
+  clear Ha. inv_bind H. rename a into isDollar. destruct isDollar.
+  { inv_bind H. inversion H; subst. left. eapply adv_trans; [exact A0|eapply skipDollarQuote_adv; eauto]. }
+  clear Ha.
+  destruct (N.eqb c 35 && HashComments o) eqn:Ehash.
+  { inv_bind H. injection H as <-. bnorm. subst c.
+    eapply comment_strip; [exact Ha|exact A0|lia|exact Hd| |right; right; auto].
+    intros Hp. change (zlen [35%N]) with 1 in Hp. destruct (Hascii ltac:(lia)) as [Hw1 [t Ht]].
+    assert (pos s0 = 0) as Hp0 by lia. split; [exact Hp0|]. rewrite Hp0 in Hrest. rewrite Hrest in Ht.
+    apply one_byte in Ht. exact Ht. }
+  clear Ehash.
+  inv_bind H. rename a into p1.
+  destruct (N.eqb c 45 && rune_is p1 45) eqn:Edash.
+  { bnorm. subst c. rewrite N.eqb_refl in Ha.
+    inv_bind H. destruct a as [r1 s2]. inv_bind H. injection H as <-. simpl in Ha1.
+    unfold pick in Ha. rewrite Ha0 in Ha. simpl in Ha. injection Ha as <-.
+    destruct r1 as [c1|]; [|match goal with HH : rune_is None _ = true |- _ => discriminate HH end].
+    match goal with HH : rune_is (Some _) _ = true |- _ => simpl in HH; apply N.eqb_eq in HH; subst c1 end.
+    pose proof (next_adv _ _ _ Ha0) as A1.
+    apply next_some in Ha0 as (rest1 & w1 & G1 & G2 & G3 & Gs & G4).
+    destruct (decode_rune_spec _ _ _ G3 G2) as (_ & Gascii & _).
+    destruct (Hascii ltac:(lia)) as [Hw1 [t Ht]]. destruct (Gascii ltac:(lia)) as [Hw2 [t1 Ht1]].
+    apply slice_from_ok in G1 as [_ G1].
+    eapply comment_strip; [exact Ha1|eapply adv_trans; eauto|lia|exact Hd| |left; auto].
+    intros Hp. change (zlen [45%N; 45%N]) with 2 in Hp. rewrite Gs in Hp. simpl in Hp.
+    assert (pos s0 = 0) as Hp0 by lia. split; [exact Hp0|].
+    rewrite Hp0 in Hrest. rewrite Hps, Hp0, His, Hw1 in G1. change (Z.to_nat (0 + 1)) with 1%nat in G1.
+    change (Z.to_nat 0) with 0%nat in Hrest. rewrite Hrest in Ht. rewrite G1 in Ht1.
+    eapply two_bytes; eauto. }
+  clear Edash Ha p1.
+  inv_bind H. rename a into p2.
+  destruct (N.eqb c 47 && rune_is p2 42) eqn:Eslash.
+  { bnorm. subst c. rewrite N.eqb_refl in Ha.
+    inv_bind H. destruct a as [r1 s2]. inv_bind H. injection H as <-. simpl in Ha1.
+    unfold pick in Ha. rewrite Ha0 in Ha. simpl in Ha. injection Ha as <-.
+    destruct r1 as [c1|]; [|match goal with HH : rune_is None _ = true |- _ => discriminate HH end].
+    match goal with HH : rune_is (Some _) _ = true |- _ => simpl in HH; apply N.eqb_eq in HH; subst c1 end.
+    pose proof (next_adv _ _ _ Ha0) as A1.
+    apply next_some in Ha0 as (rest1 & w1 & G1 & G2 & G3 & Gs & G4).
+    destruct (decode_rune_spec _ _ _ G3 G2) as (_ & Gascii & _).
+    destruct (Hascii ltac:(lia)) as [Hw1 [t Ht]]. destruct (Gascii ltac:(lia)) as [Hw2 [t1 Ht1]].
+    apply slice_from_ok in G1 as [_ G1].
+    eapply comment_strip; [exact Ha1|eapply adv_trans; eauto|lia|exact Hd| |right; left; auto].
+    intros Hp. change (zlen [47%N; 42%N]) with 2 in Hp. rewrite Gs in Hp. simpl in Hp.
+    assert (pos s0 = 0) as Hp0 by lia. split; [exact Hp0|].
+    rewrite Hp0 in Hrest. rewrite Hps, Hp0, His, Hw1 in G1. change (Z.to_nat (0 + 1)) with 1%nat in G1.
+    change (Z.to_nat 0) with 0%nat in Hrest. rewrite Hrest in Ht. rewrite G1 in Ht1.
+    eapply two_bytes; eauto. }
+  clear Eslash Ha p2.
+  inv_bind H. rename a into isEndTerm. destruct isEndTerm.
+  { inv_bind H. inversion H; subst; clear H. apply slice_to_ok in Ha0 as [_ ->].
+    split; [exact A0|split; [lia|left; reflexivity]]. }
+  clear Ha.
+  inv_bind H. rename a into isAtomic. destruct isAtomic.
+  { apply after_block_spec with (s0 := s) in H;
+      [|intros x Hx; eapply skipBeginAtomic_adv; eauto].
+    destruct step as [s1 d1 o1|s1 text|s1]; [left; eapply adv_trans; eauto| |contradiction].
+    destruct H as [A1 ->]. split; [eapply adv_trans; eauto|split; [destruct A1 as (_&_&_&?); lia|left; reflexivity]]. }
+  clear Ha. rewrite noTry, andb_false_r in H. simpl in H.
+  inv_bind H. rename a into isBegin. destruct isBegin.
+  { apply after_block_spec with (s0 := s) in H;
+      [|intros x Hx; eapply skipBegin_adv; eauto].
+    destruct step as [s1 d1 o1|s1 text|s1]; [left; eapply adv_trans; eauto| |contradiction].
+    destruct H as [A1 ->]. split; [eapply adv_trans; eauto|split; [destruct A1 as (_&_&_&?); lia|left; reflexivity]]. }
+  inversion H; subst. left. exact A0.
+Qed.
+End IterSpec.
+
